@@ -460,6 +460,15 @@ public:
     }
     startTtlOrCleanup(lock);
 
+    // An instant at or before the epoch is outside the replay plausibility window
+    // (isPlausibleEpochMs), so its 'X' record would be ignored on reload and the key
+    // would come back. Any past instant means "expired now": use the earliest
+    // representable plausible one.
+    if (toEpochMs(when) <= 0)
+    {
+      when = fromEpochMs(1);
+    }
+
     cancelTimerLocked(key);
     const core::TimerId id = armTimerLocked(key, when);
     _expiry[key] = ExpiryEntry{when, id};
